@@ -7,6 +7,16 @@ ALL = [f"C{i:02d}" for i in range(1, 21)]
 HOOK_COMMITS = subprocess.run(["git", "-C", "/repo", "log", "--format=%h %s", "--grep", "^verif hook"], capture_output=True, text=True).stdout.strip().splitlines()
 
 CHECKS = {
+ "C05": dict(
+   category="exploration", design="DESIGN.md §4 C05",
+   technique="proptest-generated span-forest programs on stepped OS threads against two Registry+recording-layer stacks in a fresh child process; per-operation comparison with a reference-count model and outside lookups",
+   text="Programs of create(contextual/root/explicit parent)/clone/drop/enter/entered/guard drops in any order/Span::current/events/SpanTrace/default switches over 3 threads. After every operation each layer's callbacks must match the model: on_close exactly once on every layer at the operation that takes the model reference count (handles + entered threads + open children) to zero, children before parents, the span's name, extensions serial and ancestor chain readable inside on_close; from outside every live span is readable with its own serial, every closed id is gone or belongs to a newer span, live ids are unique; at the end everything has closed.",
+   note="Sequential histories on stepped threads: concurrent last-reference races (schedule clause) are not explored. Open finding F2 (exit / cascading close under a foreign or absent default) is steered around by construction (excluded_known counts the skipped operations) and reported from three committed reproducers."),
+ "C06": dict(
+   category="exploration", design="DESIGN.md §4 C06",
+   technique="same registry interpreter as C05; oracle is a per-thread entered-stack model compared with lookup_current/Span::current, parents, scopes and SpanTrace contents observed inside layer callbacks and from outside",
+   text="After every operation: inside each callback ctx.lookup_current() equals the thread's most recently entered, not yet exited span; Span::current() on every thread likewise; contextual spans/events get that span as parent, explicit parent/root override it; scope() of every live span and of every event is the ancestor chain leaf to root and from_root() the reverse; SpanTrace::with_spans yields the chain at capture time even after every handle of the chain is dropped; all ancestors of live spans stay readable.",
+   note="Same-thread re-entry is excluded from the current-span clauses as the property states. F2-triggering operations are excluded as in C05."),
  "C01": dict(
    category="exploration", design="DESIGN.md §4 C01",
    technique="proptest-generated collector/filter histories on stepped OS threads in a fresh child process, judged after every emission against the current collector's own filter model (both directions)",
